@@ -6,6 +6,7 @@ K_C02 driver: everything of `CodecCommon` (`dec …` for K_C02a) plus
   `reader <0|1 obfuscated> <family> <dir> <hex stream|->`
       → `D <idx> <k> v₁ … vₖ | D … | C eof|readError`   (events of `Stream.reader`, decoder = family dispatcher;
         compressed classes are not used in streams: the driver has no zlib)
+  `accept <0|1 obfuscated> <hex stream|-> <known tickets csv|->`  → `established` | `closed eof|readError|requested`
 -/
 open AioslskVerif AioslskVerif.Wire AioslskVerif.Stream AioslskVerif.CodecDriver
 
@@ -27,6 +28,25 @@ def handle2 (line : String) : String :=
         | .error _ => none
       String.intercalate " | " ((reader (obf = "1") decode s).map showEvent)
     | _, _, _ => "bad-op"
+  | ["accept", obf, hex, tk] =>
+    match fromHex hex with
+    | some s =>
+      let z : Zlib := { deflate := id, inflate := fun _ => none }
+      let tickets := (tk.splitOn ",").filterMap (·.toNat?)
+      let decode := fun (b : Bytes) => match dispatch z table .peerinit .request b with
+        | .ok (i, vs) =>
+          -- PeerPierceFirewall has id 0 and one u32 field, PeerInit id 1
+          match (table[i]?).map (·.id), vs with
+          | some 0, [.nat t] => some (InitKind.pierce t)
+          | some 1, _ => some InitKind.peerInit
+          | _, _ => some InitKind.other
+        | .error _ => none
+      match acceptOutcome (obf = "1") decode tickets s with
+      | .established => "established"
+      | .closed .eof => "closed eof"
+      | .closed .readError => "closed readError"
+      | .closed .requested => "closed requested"
+    | none => "bad-op"
   | _ => handle table line
 
 partial def loop2 (h : IO.FS.Stream) : IO Unit := do
